@@ -46,3 +46,11 @@ package connlimit
 //@   at_call cl.next.ServeHTTP {C20} same_writer_and_request: arg0 == w && arg1 == r
 //@   at_call cl.next.ServeHTTP slot_held: cl.held[callarg(acquire, 0, 1)] >= old(cl.held[callarg(acquire, 0, 1)]) + 1
 //@   at_call cl.errHandler.ServeHTTP nothing_held: forall t string :: cl.held[t] == old(cl.held[t])
+
+// C20: the limiter's own refusal is one complete 429 response; other errors go to the default handler.
+//@ func (*ConnErrHandler).ServeHTTP
+//@   props C20
+//@   requires e != nil && w != nil
+//@   modifies external
+//@   ensures limit_is_429: istype(err, "*MaxConnError") ==> calls(w.WriteHeader) == 1 && callarg(w.WriteHeader, 0, 0) == 429 && calls(w.Write) == 1 && before(w.WriteHeader, w.Write)
+//@   ensures other_errors_delegated: !istype(err, "*MaxConnError") ==> calls(w.WriteHeader) == 0 && calls(DefaultHandler.ServeHTTP) == 1
